@@ -14,6 +14,32 @@ ANGLES = [0.0, math.pi / 2, -math.pi / 2, math.pi, 0.3, -1.1, 2.0, math.pi / 4, 
 MAGS = [1.0, 1.0, 2.0, 0.5, 1.5, 3.0]
 
 
+def _seg_dist(a, b, c, d):
+    """distance between segments ab and cd (integers in, float out)"""
+    def pd(p, q, r_):
+        dx, dy = r_[0] - q[0], r_[1] - q[1]
+        l2 = dx * dx + dy * dy
+        t = 0.0 if l2 == 0 else max(0.0, min(1.0, ((p[0] - q[0]) * dx + (p[1] - q[1]) * dy) / l2))
+        return math.hypot(p[0] - q[0] - t * dx, p[1] - q[1] - t * dy)
+
+    def orient(p, q, r_):
+        v = (q[0] - p[0]) * (r_[1] - p[1]) - (q[1] - p[1]) * (r_[0] - p[0])
+        return (v > 0) - (v < 0)
+    if orient(a, b, c) != orient(a, b, d) and orient(c, d, a) != orient(c, d, b):
+        return 0.0
+    return min(pd(a, c, d), pd(b, c, d), pd(c, a, b), pd(d, a, b))
+
+
+def self_approach(ipts, clearance):
+    """True if two non-adjacent segments of the polyline come closer than clearance"""
+    n = len(ipts) - 1
+    for i in range(n):
+        for j in range(i + 2, n):
+            if _seg_dist(ipts[i], ipts[i + 1], ipts[j], ipts[j + 1]) < clearance:
+                return True
+    return False
+
+
 class Gen:
     def __init__(self, seed, opts=None):
         self.r = random.Random(seed)
@@ -160,27 +186,14 @@ class Gen:
             out.append({'name': name, 'values': vals})
         return out
 
-    def flexpath(self, g):
+    def _spine(self, g, els, allow_oblique=True):
+        """polyline with long segments (>= 4 widths) and turns of at most 90 degrees, so that neither offsets nor
+        joins fold over (no degenerate self-overlap: the domain of C07 and of the GDSII path semantics)"""
         r = self.r
-        nel = r.choice([1, 1, 1, 2, 3])
-        simple = (not self.o['nonsimple']) or r.random() < 0.6
-        els = []
-        for i in range(nel):
-            w = self.on_grid(g, 1, 10) * 2
-            off = 0.0 if (nel == 1 and r.random() < 0.7) else (i - (nel - 1) / 2) * self.on_grid(g, 8, 14) * 2
-            ends = [0, 2, 3] + ([1] if self.o['round_ends'] else [])
-            end = r.choice(ends)
-            lo = -3 if self.o['ext_neg'] else 0
-            ext = (self.on_grid(g, lo, 8), self.on_grid(g, lo, 8)) if end == 3 else (0.0, 0.0)
-            els.append({'width': w, 'offset': off, 'tag': self.tag(), 'join': r.choice([0, 1, 2, 3]) if not simple else 0,
-                        'end': end, 'ext': ext, 'bend': 0, 'bend_radius': 0.0})
-        # spine with long segments (>= 4 widths) and turns of at most 90 degrees, so that neither offsets nor
-        # joins fold over (no degenerate self-overlap: the domain of C07 and of the GDSII path semantics)
         x, y = r.randrange(-100, 100), r.randrange(-100, 100)
-        p0 = (x * g, y * g)
-        pts = []
+        ipts = [(x, y)]
         last = None
-        oblique_ok = all(e['offset'] == 0 for e in els)
+        oblique_ok = allow_oblique and all(e['offset'] == 0 for e in els)
         for _ in range(r.randrange(1, 6)):
             for _try in range(20):
                 k = r.random()
@@ -201,7 +214,29 @@ class Gen:
             last = d
             x += d[0]
             y += d[1]
-            pts.append((x * g, y * g))
+            ipts.append((x, y))
+        return (ipts[0][0] * g, ipts[0][1] * g), [(px * g, py * g) for px, py in ipts[1:]], ipts
+
+    def flexpath(self, g):
+        r = self.r
+        nel = r.choice([1, 1, 1, 2, 3])
+        simple = (not self.o['nonsimple']) or r.random() < 0.6
+        els = []
+        for i in range(nel):
+            w = self.on_grid(g, 1, 10) * 2
+            off = 0.0 if (nel == 1 and r.random() < 0.7) else (i - (nel - 1) / 2) * self.on_grid(g, 8, 14) * 2
+            ends = [0, 2, 3] + ([1] if self.o['round_ends'] else [])
+            end = r.choice(ends)
+            lo = -3 if self.o['ext_neg'] else 0
+            ext = (self.on_grid(g, lo, 8), self.on_grid(g, lo, 8)) if end == 3 else (0.0, 0.0)
+            els.append({'width': w, 'offset': off, 'tag': self.tag(), 'join': r.choice([0, 1, 2, 3]) if not simple else 0,
+                        'end': end, 'ext': ext, 'bend': 0, 'bend_radius': 0.0})
+        for _attempt in range(30):
+            p0, pts, ipts = self._spine(g, els)
+            if not self_approach(ipts, 40):
+                break
+        else:
+            p0, pts = (ipts[0][0] * g, ipts[0][1] * g), [(ipts[1][0] * g, ipts[1][1] * g)]
         return {'p0': p0, 'tol': 1e-2 * 10 * g, 'elements': els, 'simple': simple, 'scale_width': r.random() < 0.8,
                 'calls': [('segment', pts)], 'rep': self.repetition(g), 'props': self.gds_props() + self.oas_props()}
 
@@ -218,18 +253,15 @@ class Gen:
             lo = -3 if self.o['ext_neg'] else 0
             ext = (self.on_grid(g, lo, 8), self.on_grid(g, lo, 8)) if end == 3 else (0.0, 0.0)
             els.append({'width': w, 'offset': off, 'tag': self.tag(), 'end': end, 'ext': ext})
-        x, y = r.randrange(-100, 100), r.randrange(-100, 100)
-        p0 = (x * g, y * g)
-        calls = []
-        horiz = r.random() < 0.5
-        for _ in range(r.randrange(1, 5)):
-            d = r.choice([-1, 1]) * r.randrange(60, 140)
-            if horiz:
-                x += d
-            else:
-                y += d
-            horiz = not horiz
-            calls.append(('segment', (x * g, y * g)))
+        for _attempt in range(30):
+            # simple robust paths stay Manhattan: gdstk samples each section at interior points whose individual
+            # rounding would be visible on an oblique line
+            p0, pts, ipts = self._spine(g, els, allow_oblique=not simple)
+            if not self_approach(ipts, 40):
+                break
+        else:
+            p0, pts = (ipts[0][0] * g, ipts[0][1] * g), [(ipts[1][0] * g, ipts[1][1] * g)]
+        calls = [('segment', p) for p in pts]
         return {'p0': p0, 'tol': 1e-2 * 10 * g, 'max_evals': 1000, 'elements': els, 'simple': simple,
                 'scale_width': r.random() < 0.8, 'calls': calls, 'rep': self.repetition(g),
                 'props': self.gds_props() + self.oas_props()}
